@@ -323,7 +323,10 @@ impl DodecahedronProjection {
     pub fn verif_memo_slots(&self) -> (Vec<bool>, Vec<bool>) {
         (
             self.face_triangles.iter().map(|s| s.is_some()).collect(),
-            self.spherical_triangles.iter().map(|s| s.is_some()).collect(),
+            self.spherical_triangles
+                .iter()
+                .map(|s| s.is_some())
+                .collect(),
         )
     }
 }
